@@ -117,4 +117,33 @@ def run(ctx):
             r.fail(rule, 'process_close_secure_channel:propagate', 'process_close_secure_channel returns Ok without the close service having succeeded (error not propagated)', loc=b.loc)
         else:
             r.ok(rule, 'process_close_secure_channel:propagate', 'Ok only on the success edge of close_secure_channel(..)?', loc=b.loc)
-    r.floor('C15', 'gates', len(r.obls), 5)
+    # ---------------- (d) the "channel open" indicator is only committed once nothing can refuse the OPN any more
+    rule = 'indicator-after-validation'
+    setters = []
+    for bd in db.find_bodies(r'^server::'):
+        for c in bd.calls():
+            if c.callee.endswith('SecureChannel::set_secure_channel_id'):
+                setters.append((bd, c))
+    if not setters:
+        r.lost(rule, 'set_secure_channel_id', 'no server-side call of SecureChannel::set_secure_channel_id found')
+    for bd, c in setters:
+        key = 'set_secure_channel_id@' + bd.path.rsplit('::', 2)[-2] + '::' + bd.path.rsplit('::', 1)[-1]
+        if not bd.path.endswith('SecureChannelService::open_secure_channel'):
+            r.fail(rule, key, 'the channel id (the "channel open" indicator tested before dispatching MSG chunks) is set outside open_secure_channel', loc=c.loc)
+            continue
+        after = bd.reachable_blocks(c.target) if c.target is not None else set()
+        rej = []
+        for bi in after:
+            if bd.is_cleanup(bi):
+                continue
+            t = bd.term(bi)
+            if t[0] == 'call' and t[1][0] == 'fn' and re.search(r'ServiceFault::new$|FromResidual.*from_residual$', t[1][1].split('<')[0] if False else t[1][1]):
+                rej.append('%s:%s' % (t[6]['f'], t[6]['l']))
+            for st in bd.stmts(bi):
+                if st[0] == '=' and st[2][0] == 'agg' and st[2][2] == 'std::result::Result' and st[2][3] == 'Err':
+                    rej.append('%s:%s' % (bd.loc.file, st[3] if not isinstance(st[3], dict) else st[3]['l']))
+        if rej:
+            r.fail(rule, key, 'the channel id is assigned before the request can still be refused (%s): a refused OPN leaves the connection looking open' % ', '.join(sorted(set(rej))[:3]), loc=c.loc)
+        else:
+            r.ok(rule, key, 'no refusing return (ServiceFault / Err / ?) is reachable after the channel id is assigned', loc=c.loc)
+    r.floor('C15', 'gates', len(r.obls), 6)
